@@ -7,7 +7,7 @@ from __future__ import annotations
 import numpy as np
 
 OPS = ["neg", "add", "addself", "transpose", "flip", "rechunk", "sum0", "sum1", "index", "matmul",
-       "unstack_stack", "concat", "mean0", "cumsum", "store", "astype", "mul3", "max_all_bcast"]
+       "unstack_stack", "concat", "mean0", "cumsum", "store", "astype", "mul3", "max_all_bcast", "where3"]
 
 
 def gen_dag_program(rng, n_steps=None):
@@ -17,11 +17,11 @@ def gen_dag_program(rng, n_steps=None):
     n_in = rng.randint(1, 3)
     inputs = [{"chunks": [rng.choice(cs), rng.choice(cs)], "salt": i} for i in range(n_in)]
     steps = []
-    n_steps = n_steps or rng.randint(2, 7)
+    n_steps = n_steps or rng.choice([1, 1, 2, 2, 3, 4, 5, 6, 7])
     nvals = n_in
     weights = {"neg": 5, "add": 6, "addself": 2, "transpose": 2, "flip": 1, "rechunk": 2, "sum0": 2, "sum1": 2, "index": 2,
                "matmul": 1, "unstack_stack": 1, "concat": 1, "mean0": 1, "cumsum": 1, "store": 1, "astype": 1, "mul3": 2,
-               "max_all_bcast": 1}
+               "max_all_bcast": 1, "where3": 3}
     names = list(weights)
     for _ in range(n_steps):
         op = rng.choices(names, [weights[k] for k in names])[0]
@@ -80,8 +80,21 @@ def numpy_values(prog):
             v = a * b + c
         elif op == "max_all_bcast":
             v = a + a.max()
+        elif op == "where3":
+            v = np.where(a > 20, (-b).astype("int8"), (-c).astype("int8")).astype("int64")
         vals.append(v)
     return vals
+
+
+def numpy_values_cache(prog):
+    key = id(prog)
+    if _CACHE.get("key") != key:
+        _CACHE["key"] = key
+        _CACHE["vals"] = numpy_values(prog)
+    return _CACHE["vals"]
+
+
+_CACHE = {}
 
 
 def build(prog, spec, store_dir=None):
@@ -137,6 +150,11 @@ def build(prog, spec, store_dir=None):
             v = xp.add(xp.multiply(a, b), c)
         elif op == "max_all_bcast":
             v = xp.add(a, xp.max(a))
+        elif op == "where3":
+            # a three-input op whose predecessors (negative -> int8 cast) need more memory than the op itself
+            # (the condition is a plain in-memory input: a non-fusable first argument)
+            mask = xp.asarray(numpy_values_cache(prog)[st["a"]] > 20, chunks=tuple(st["chunks"]), spec=spec)
+            v = xp.astype(xp.where(mask, xp.astype(xp.negative(b), xp.int8), xp.astype(xp.negative(c), xp.int8)), xp.int64)
         vals.append(v)
     return vals
 
